@@ -45,6 +45,7 @@ struct obj {
 	struct cookie ck[2];
 	int occ[4];
 	int inpost;		/* threads currently inside a post on this object */
+	int osclosed;		/* the OS descriptor number is stale (closed): only register_try may see it */
 };
 static struct obj O[NKIND][MAXO + 1];
 
@@ -124,11 +125,15 @@ static void check_touch(void)
 }
 
 /* the object is no longer lent to the library: poison it and keep watching */
+static int keepobjs;	/* objects are initialised once and re-registered as they are (no INIT, no poison) */
+
 static void quarantine(int k, int id)
 {
 	struct obj *o = &O[k][id];
 
 	if (o->mem == NULL)
+		return;
+	if (keepobjs && (k == K_FD || k == K_TM || k == K_TK || k == K_EV))
 		return;
 	memset(o->mem, 0xAA, ksize[k]);
 	if (nq < 256) {
@@ -175,7 +180,7 @@ static void truth_json(char *buf, size_t len)
 		struct obj *o = &O[K_FD][i];
 		int bits = 0;
 
-		if (o->declared && o->osfd >= 0) {
+		if (o->declared && o->osfd >= 0 && !o->osclosed) {
 			struct pollfd p = { .fd = o->osfd, .events = POLLIN | POLLOUT };
 			if (__real_poll(&p, 1, 0) > 0)
 				bits = ((p.revents & POLLIN) ? 1 : 0) | ((p.revents & POLLOUT) ? 2 : 0) |
@@ -196,7 +201,7 @@ static int fid_of_ptr(void *p)
 static int fid_of_osfd(int fd)
 {
 	for (int i = 1; i <= MAXO; i++)
-		if (O[K_FD][i].declared && O[K_FD][i].osfd == fd)
+		if (O[K_FD][i].declared && O[K_FD][i].osfd == fd && !O[K_FD][i].osclosed)
 			return i;
 	return 0;
 }
@@ -382,9 +387,11 @@ static void do_op(struct op *p)
 	}
 	if (!strcmp(n, "fd_reg") || !strcmp(n, "fd_try")) {
 		OBJ(K_FD);
-		if (o->reg || o->osfd < 0) { skip(n, id); goto out; }
-		struct iv_fd *fd = fresh(K_FD, id);
-		IV_FD_INIT(fd);
+		if (o->reg || o->osfd < 0 || (o->osclosed && strcmp(n, "fd_try"))) { skip(n, id); goto out; }
+		int hadfd = keepobjs && o->mem != NULL;
+		struct iv_fd *fd = hadfd ? o->mem : fresh(K_FD, id);
+		if (!hadfd)
+			IV_FD_INIT(fd);
 		fd->fd = o->osfd;
 		fd->cookie = cookie_of(K_FD, id);
 		fd->handler_in = fdhtab[1][hid_of(id, p->a[1])];
@@ -429,34 +436,47 @@ static void do_op(struct op *p)
 	} else if (!strcmp(n, "fd_newos")) {
 		OBJ(K_FD);
 		if (o->reg) { skip(n, id); goto out; }
-		if (o->osfd >= 0) __real_close(o->osfd);
+		if (o->osfd >= 0 && !o->osclosed) __real_close(o->osfd);
 		if (o->peer >= 0) __real_close(o->peer);
+		o->osclosed = 0;
 		make_osfd(o);
 		alog(n, id, 0, 0, 0, 0, 0);
+	} else if (!strcmp(n, "fd_swapos")) {
+		/* the object moves to a fresh OS descriptor while the old one stays
+		 * open (and readable) elsewhere in the program */
+		OBJ(K_FD);
+		if (o->reg || o->osclosed) { skip(n, id); goto out; }
+		if (o->peer >= 0 && o->ptype != 1)
+			io_rw(o->peer, 1, 1);
+		make_osfd(o);
+		alog("fd_newos", id, 1, 0, 0, 0, 0);
 	} else if (!strcmp(n, "fd_closeos")) {
 		/* valid only while unregistered: closes the OS descriptor */
 		OBJ(K_FD);
-		if (o->reg) { skip(n, id); goto out; }
+		if (o->reg || o->osclosed) { skip(n, id); goto out; }
 		if (o->osfd >= 0) __real_close(o->osfd);
-		o->osfd = -1;
+		o->osclosed = 1;	/* the number stays in the object, as in a program that lost track */
 		alog(n, id, 0, 0, 0, 0, 0);
 	} else if (!strcmp(n, "drain") || !strcmp(n, "rd")) {
 		OBJ(K_FD);
-		if (o->osfd < 0) { skip(n, id); goto out; }
+		if (o->osfd < 0 || o->osclosed) { skip(n, id); goto out; }
 		r = io_rw(o->osfd, 0, !strcmp(n, "drain") ? 1 << 22 : p->a[1]);
 		tr("\"e\":\"Io\",\"op\":\"%s\",\"o\":%d,\"n\":%ld}", n, id, r);
 	} else if (!strcmp(n, "wr") || !strcmp(n, "fill")) {
 		OBJ(K_FD);
-		if (o->osfd < 0) { skip(n, id); goto out; }
+		if (o->osfd < 0 || o->osclosed) { skip(n, id); goto out; }
 		r = io_rw(o->osfd, 1, !strcmp(n, "fill") ? 1 << 22 : p->a[1]);
 		tr("\"e\":\"Io\",\"op\":\"%s\",\"o\":%d,\"n\":%ld}", n, id, r);
 	} else if (!strcmp(n, "tm_reg")) {
 		OBJ(K_TM);
 		if (o->reg) { skip(n, id); goto out; }
-		struct iv_timer *t = fresh(K_TM, id);
-		IV_TIMER_INIT(t);
-		t->cookie = cookie_of(K_TM, id);
-		t->handler = ohtab[K_TM][id];
+		int hadtm = keepobjs && o->mem != NULL;
+		struct iv_timer *t = hadtm ? o->mem : fresh(K_TM, id);
+		if (!hadtm) {
+			IV_TIMER_INIT(t);
+			t->cookie = cookie_of(K_TM, id);
+			t->handler = ohtab[K_TM][id];
+		}
 		/* mode 0: absolute VBASE+offset, 1: relative to iv_now, 2: zero */
 		ns_t x = (ns_t)p->a[2] * NSEC + p->a[3];
 		if (p->a[1] == 0) {
@@ -483,7 +503,7 @@ static void do_op(struct op *p)
 	} else if (!strcmp(n, "tk_reg")) {
 		OBJ(K_TK);
 		if (o->reg) { skip(n, id); goto out; }
-		int had = keeptasks && o->mem != NULL;
+		int had = (keeptasks || keepobjs) && o->mem != NULL;
 		struct iv_task *t = fresh(K_TK, id);
 		if (!had) {
 			IV_TASK_INIT(t);
@@ -790,6 +810,8 @@ out:
 #undef OBJ
 }
 
+static void empty_sig_handler(int sig) { }
+
 static int do_env(struct op *p)
 {
 	const char *n = p->name;
@@ -803,6 +825,15 @@ static int do_env(struct op *p)
 	}
 	if (!strcmp(n, "raise")) {
 		simk_raise((int)p->a[0], (int)p->a[1]);
+		return 1;
+	}
+	if (!strcmp(n, "intr")) {
+		/* a signal with an (empty) handler of the program interrupts the wait */
+		struct sigaction sa;
+		memset(&sa, 0, sizeof sa);
+		sa.sa_handler = empty_sig_handler;
+		sigaction(SIGUSR2, &sa, NULL);
+		simk_raise(SIGUSR2, (int)p->a[0]);
 		return 1;
 	}
 	if (!strcmp(n, "advance")) {
@@ -1057,6 +1088,7 @@ static void reset_script(void)
 	maxcb = 120;
 	sigsim = 0;
 	keeptasks = 0;
+	keepobjs = 0;
 	memrec = 0;
 	cycles = 0;
 	npids = 0;
@@ -1116,6 +1148,7 @@ int main(int argc, char **argv)
 				else if (!strncmp(tok[i], "jump=", 5)) jump = atoi(tok[i] + 5);
 				else if (!strncmp(tok[i], "sigsim=", 7)) sigsim = atoi(tok[i] + 7);
 				else if (!strncmp(tok[i], "keeptasks=", 10)) keeptasks = atoi(tok[i] + 10);
+				else if (!strncmp(tok[i], "keep=", 5)) keepobjs = atoi(tok[i] + 5);
 				else if (!strncmp(tok[i], "memrec=", 7)) memrec = atoi(tok[i] + 7);
 				else if (!strncmp(tok[i], "cycles=", 7)) cycles = atoi(tok[i] + 7);
 				else if (!strncmp(tok[i], "chldthr=", 8)) chldthr = atoi(tok[i] + 8);
